@@ -464,6 +464,11 @@ func (o *opCtx) exec(kind, k int) string {
 			}
 		}
 		snap := append([]banderwagon.Element(nil), store...)
+		eb := banderwagon.ElementsToBytes(list...)
+		for i, b := range eb {
+			d.add(b[:])
+			eb[i] = [32]byte{0xEE}
+		}
 		for _, b := range banderwagon.ElementsToBytes(list...) {
 			d.add(b[:])
 		}
@@ -567,6 +572,10 @@ func (o *opCtx) exec(kind, k int) string {
 			d.addf("err=%v", err != nil)
 			if p != nil {
 				d.elem(p)
+				p.SetIdentity() // scribble on the returned object, then read the same bytes again
+				if p2, err2 := common.ReadPoint(bytes.NewReader(enc[:])); err2 == nil && p2 != nil {
+					d.elem(p2)
+				}
 			}
 			sc := ref.LE32(randBig(rng, ref.R))
 			s, err := common.ReadScalar(bytes.NewReader(sc[:]))
@@ -604,10 +613,19 @@ func (o *opCtx) exec(kind, k int) string {
 		}
 		d.addf("sum=%d", sum)
 	case opCRS:
-		pts := ipa.GenerateRandomPoints(uint64(1 + rng.Intn(12)))
+		np := uint64(1 + rng.Intn(12))
+		pts := ipa.GenerateRandomPoints(np)
 		for i := range pts {
 			d.elem(&pts[i])
+			pts[i].SetIdentity() // the returned slice is the caller's: scribble on it ...
 		}
+		for _, p2 := range ipa.GenerateRandomPoints(np) { // ... and ask again
+			d.elem(&p2)
+		}
+		m := fr.Modulus()
+		d.addf("%s", m.Text(16))
+		m.SetInt64(7)
+		d.addf("%s", fr.Modulus().Text(16))
 	case opVerifyMalformed:
 		// error paths: wrong-shape proofs and statements must fail cleanly and leave nothing behind
 		n := []int{1, 2, 4, 9}[rng.Intn(4)]
